@@ -52,7 +52,20 @@ def type_worker(arg):
         return {"recs": [], "viol": [{"kind": "bytes", "case": {"ty": tjson, "hdr": hdr}, "diff": [("serialize failed", type(ex).__name__, str(ex)[:200])]}]}
     recs, viol = [], []
     seen = set()
-    for b in _strings(t, rng, tier, valid):
+    from pydsdl import _verif_trace
+    from .. import wiretrace
+    _verif_trace.drain()
+    wire_recs = []
+    for nstr, b in enumerate(_strings(t, rng, tier, valid)):
+        if nstr % 25 == 0:          # the reader / writer steps of every 25th call are validated against TraceWire.tla
+            evs = [e for e in _verif_trace.drain() if e["ev"].startswith(("rd", "wr"))]
+            if evs and len(wire_recs) < 400:
+                wrecs, mal = wiretrace.to_records(evs)
+                wire_recs.extend(wrecs[:200])
+                for m in mal:
+                    viol.append({"kind": "wire-trace", "case": {"ty": tjson, "hdr": hdr}, "diff": [("malformed reader / writer event stream", m[0], str(m[1])[:200])]})
+        elif nstr % 25 == 23:
+            _verif_trace.drain()
         if b in seen:
             continue
         seen.add(b)
@@ -80,7 +93,8 @@ def type_worker(arg):
                 continue
             obs = {"ok": False, "err": kind}
         recs.append({"id": base_id + len(recs), "ty": tjson, "hdr": hdr, "b": list(b), "obs": obs})
-    return {"recs": recs, "viol": viol}
+    _verif_trace.drain()
+    return {"recs": recs, "viol": viol, "wire": wire_recs}
 
 def _has_nan(a):
     if isinstance(a, tuple):
@@ -154,6 +168,24 @@ def utf8_worker(seed):
                     viol.append(("exception", b.hex(), type(ex).__name__))
     return {"n": n, "viol": viol[:5]}
 
+def repo_suite_trace():
+    """Run the repository's own serdes tests with the hooks on and return their reader / writer steps as records."""
+    import json, os, subprocess, sys, tempfile
+    from .. import wiretrace
+    fd, path = tempfile.mkstemp(prefix="verif-trace-", suffix=".ndjson")
+    os.close(fd)
+    try:
+        env = dict(os.environ, OPENCYPHAL_PYDSDL_VERIF="1", OPENCYPHAL_PYDSDL_VERIF_TRACE=path, PYTHONDONTWRITEBYTECODE="1",
+                   PYTHONPATH=str(core.REPO))
+        p = subprocess.run([sys.executable, "-m", "pytest", "-q", "-p", "no:cacheprovider", "-x", "pydsdl/_test_serdes.py"],
+                           cwd=str(core.REPO), env=env, capture_output=True, text=True, timeout=900)
+        if p.returncode != 0:
+            raise tlc.MachineryError("the repository's serdes tests failed under tracing: %s" % p.stdout[-500:])
+        evs = [json.loads(l) for l in open(path)]
+    finally:
+        os.unlink(path)
+    return wiretrace.to_records([e for e in evs if e["ev"].startswith(("rd", "wr"))])
+
 def run(ctx):
     ctx.rule = ("TLC checks DecTotal / FixedPoint / TruncationIgnored / ZeroExtension on every bit string of 0..8 bits "
                 "(Growth-2 types) [thorough: 0..16 bits] of the specification's decoder. Binding: for every type of the "
@@ -186,7 +218,7 @@ def run(ctx):
         ctx.exhaustive = False
     args = [(tj, hdr, ctx.seed * 100003 + n, ctx.tier, n * 100000) for n, (tj, hdr) in enumerate(types)]
     results = core.pmap(type_worker, args, chunksize=4)
-    recs = []
+    recs, wire = [], []
     for r in results:
         if "harness_exception" in r:
             lf = core.library_failure(r)
@@ -197,6 +229,7 @@ def run(ctx):
         for v in r["viol"]:
             ctx.violation(v)
         recs.extend(r["recs"])
+        wire.extend(r.get("wire", []))
     by_id = {r["id"]: r for r in recs}
     bad = records.check(ctx, "WireRecords", recs, "c07rec", slices=16)
     for i in sorted(bad)[:200]:
@@ -210,6 +243,23 @@ def run(ctx):
             ctx.nontriv(core.jhash([r["ty"], r["hdr"], r["b"]]))
     if recs:
         ctx.sample({k: recs[len(recs) // 2][k] for k in ("ty", "hdr", "b", "obs")})
+    # Binding B: recorded reader / writer steps of the harness's own calls and of the repository's serdes tests
+    suite, mal = repo_suite_trace()
+    for m in mal:
+        if not m[0].startswith("writer"):
+            ctx.violation({"kind": "wire-trace", "case": "repository serdes tests", "diff": [(m[0], str(m[1])[:200])]})
+    ctx.extra["wire_trace_records"] = {"harness_calls": len(wire), "repository_tests": len(suite),
+                                       "writers_not_judged": sum(1 for m in mal if m[0].startswith("writer"))}
+    allw = wire + suite
+    for n, r in enumerate(allw):
+        r["id"] = n + 1
+    badw = records.check(ctx, "TraceWire", allw, "c07wire", slices=8)
+    for i in sorted(badw)[:50]:
+        r = allw[i - 1]
+        ctx.violation({"kind": "wire-trace", "case": {k: r[k] for k in r if k not in ("data", "writes")}, "data": r.get("data"),
+                       "diff": [("recorded %s step contradicts the specification's reader / writer" % r["kind"], r.get("path"))]})
+    ctx.traces += len(allw)
+    ctx.count(len(allw))
     u = core.pmap(utf8_worker, [ctx.seed + k for k in range(8)], procs=8, chunksize=1)
     for r in u:
         if "harness_exception" in r:
